@@ -31,6 +31,10 @@ fn batches(rng: &mut Rng, n: usize) -> Vec<(String, Vec<usize>)> {
     out.push(("subset".to_string(), sub));
     let r = rng.gen_range(0..n);
     out.push(("one-row-repeated".to_string(), vec![r; 5]));
+    // longer than any internal block size and not a multiple of one (batch predictions may be
+    // computed block-wise or in parallel): the probe rows over and over
+    let len = 2048 + rng.gen_range(1..900);
+    out.push(("long-cyclic".to_string(), (0..len).map(|i| (i * 7 + 3) % n).collect()));
     out
 }
 
@@ -81,8 +85,8 @@ fn check_subject(c: &mut Case, s: &dyn Subject, thorough: bool) -> Outcome {
                 if !s.supports(form, layout) {
                     continue;
                 }
-                // quick tier: hostile layouts only through the view forms and the plain form
-                if false {
+                // the long batch goes through three forms in standard layout only (cost)
+                if bname == "long-cyclic" && !(matches!(form, Form::RefArray | Form::OwnedDataset | Form::Inplace) && layout == Layout::C) {
                     continue;
                 }
                 let desc = json!({"model": name, "batch": bname, "rows": idx.len(), "form": format!("{form:?}"), "layout": format!("{layout:?}")});
